@@ -14,7 +14,8 @@ Definition lk (a : xleaf) : kl := match a with XS l => (KSTRING, l) | XI l => (K
 Inductive xword := WI (lx : text) | WF (lx printed : text) | WW (lx : text) | WP (lx : text).
 Definition wk (w : xword) : kl := match w with WI l => (KINT, l) | WF l _ => (KFLOAT, l) | WW l => (KID, l) | WP l => (KPLAIN, l) end.
 Inductive xkey := KQ (lx : text) | KW (ws : list xword).          (* a quoted key (STRING lexeme) / an unquoted key *)
-Inductive xpv := PVLeaf (a : xleaf) | PVWords (ws : list xword).   (* the value of a pair: one token or unquoted text *)
+(* the value of a pair: one token, unquoted text, or unquoted text with colons (k: C:\data\in.csv) *)
+Inductive xpv := PVLeaf (a : xleaf) | PVWords (ws : list xword) | PVColon (first : list xword) (more : list (list xword)).
 Definition xpair := (xkey * xpv)%type.
 (* XWords: unquoted text of several tokens; XDict: a dictionary [k: v, ...] (as an argument's value or as an element of a list, at any depth) *)
 Inductive xval := XLeaf (a : xleaf) | XList (l : list xval) (trail : bool) | XWords (ws : list xword)
@@ -27,7 +28,8 @@ Record xcmd := { xc_result : option text; xc_name : text; xc_args : list (text *
 Definition tkj (trail : bool) (ls : list (list kl)) : list kl :=
   tk_join ls ++ (match ls with [] => [] | _ => if trail then [comma] else [] end).
 Definition tk_key (k : xkey) : list kl := match k with KQ lx => [(KSTRING, lx)] | KW ws => map wk ws end.
-Definition tk_pv (v : xpv) : list kl := match v with PVLeaf a => [lk a] | PVWords ws => map wk ws end.
+Definition tk_colon (p : list xword) (ps : list (list xword)) : list kl := map wk p ++ flat_map (fun q => colon :: map wk q) ps.
+Definition tk_pv (v : xpv) : list kl := match v with PVLeaf a => [lk a] | PVWords ws => map wk ws | PVColon p ps => tk_colon p ps end.
 Definition tkx_pair (p : xpair) : list kl := tk_key (fst p) ++ colon :: tk_pv (snd p).
 Fixpoint tkx_value (v : xval) : list kl :=
   match v with
@@ -41,7 +43,7 @@ Definition tkx_arg (a : text * xarg) : list kl :=
   match snd a with
   | XAVal v => tkx_value v
   | XADict p ps tr => lbt :: tkj tr (map tkx_pair (p :: ps)) ++ [rbt]
-  | XAColon p ps => map wk p ++ flat_map (fun q => colon :: map wk q) ps
+  | XAColon p ps => tk_colon p ps
   end.
 Definition lpt : kl := (KLPAREN, [40%N]).
 Definition rpt : kl := (KRPAREN, [41%N]).
@@ -63,7 +65,8 @@ Definition lden (a : xleaf) : pval :=
 Definition wpiece (w : xword) : text := match w with WI lx => str_of_Z (int_of_lexeme lx) | WF _ pr => pr | WW lx => lx | WP lx => lx end.
 Fixpoint wtext (ws : list xword) : text := match ws with [] => [] | w :: t => wpiece w ++ wtext t end.
 Definition kden (k : xkey) : text := match k with KQ lx => match sden lx with Some t => t | None => [] end | KW ws => wtext ws end.
-Definition pvden (v : xpv) : pval := match v with PVLeaf a => lden a | PVWords ws => PStr (wtext ws) end.
+Definition ctext_of (p : list xword) (ps : list (list xword)) : text := wtext p ++ flat_map (fun q => 58%N :: wtext q) ps.
+Definition pvden (v : xpv) : pval := match v with PVLeaf a => lden a | PVWords ws => PStr (wtext ws) | PVColon p ps => PStr (ctext_of p ps) end.
 Definition pden (p : xpair) : text * pexpr := (kden (fst p), PE (pvden (snd p)) 0%N).
 Fixpoint xdexp (kv : list xpair) : list (text * pexpr) :=
   match kv with
@@ -82,7 +85,10 @@ Definition word_fs_ok (fs : text -> option text) (w : xword) : bool :=
 Definition words_valid (fs : text -> option text) (ws : list xword) : bool := last_word_ok ws && forallb (word_fs_ok fs) ws.
 Definition key_ok (fs : text -> option text) (k : xkey) : bool :=
   match k with KQ lx => match sden lx with Some _ => true | None => false end | KW ws => words_valid fs ws end.
-Definition pv_ok (fs : text -> option text) (v : xpv) : bool := match v with PVLeaf a => leaf_ok a | PVWords ws => words_valid fs ws end.
+Definition colon_ok (fs : text -> option text) (p : list xword) (ps : list (list xword)) : bool :=
+  words_valid fs p && forallb (words_valid fs) ps && match ps with [] => false | _ => true end.
+Definition pv_ok (fs : text -> option text) (v : xpv) : bool :=
+  match v with PVLeaf a => leaf_ok a | PVWords ws => words_valid fs ws | PVColon p ps => colon_ok fs p ps end.
 Definition pair_ok (fs : text -> option text) (p : xpair) : bool := key_ok fs (fst p) && pv_ok fs (snd p).
 Fixpoint xval_ok (fs : text -> option text) (v : xval) : bool :=
   match v with XLeaf a => leaf_ok a | XList l _ => forallb (xval_ok fs) l | XWords ws => last_word_ok ws && forallb (word_fs_ok fs) ws
@@ -102,6 +108,7 @@ Notation xval_ok := (xval_ok fs).
 Notation words_valid := (words_valid fs).
 Notation key_ok := (key_ok fs).
 Notation pv_ok := (pv_ok fs).
+Notation colon_ok := (colon_ok fs).
 Notation pair_ok := (pair_ok fs).
 Ltac lr := cbn [run step defaulted hd_error tl LrComplete.mk fst snd t_kind term_of action reduce production firstn skipn length map rev app
                 Nat.ltb Nat.leb goto Nat.add LrComplete.deco tkx_value tk_join tkj ge gl gp ga gc sh gt S_res S_eq S_name S_lp S_an S_val S_lb S_el S_ec S_arg S_ac S_cmd S_tp S_pc Nat.eqb lk].
@@ -205,8 +212,8 @@ Definition wfollow (s : nat) (la : token) : Prop :=
   ((s = S_lb \/ s = S_ec) /\ (t_kind la = KCOMMA \/ t_kind la = KRBRACK)) \/
   ((s = S_lb \/ s = S_pc) /\ t_kind la = KCOLON) \/
   ((s = S_tv \/ s = S_tv2) /\ (t_kind la = KCOMMA \/ t_kind la = KRBRACK)) \/
-  ((s = S_val \/ s = S_co) /\ t_kind la = KCOLON) \/
-  (s = S_co /\ (t_kind la = KCOMMA \/ t_kind la = KRPAREN)) \/
+  ((s = S_val \/ s = S_co \/ s = S_tv \/ s = S_tv2) /\ t_kind la = KCOLON) \/
+  (s = S_co /\ (t_kind la = KCOMMA \/ t_kind la = KRPAREN \/ t_kind la = KRBRACK)) \/
   (inner s /\ la4 la).
 Definition wterm (w : xword) : term := match w with WI _ => T_INT | WF _ _ => T_FLOAT | WW _ => T_ID | WP _ => T_PLAIN_STRING end.
 Ltac lrw := cbn [run step defaulted hd_error tl LrComplete.mk fst snd t_kind term_of action reduce production firstn skipn length map rev app
@@ -214,7 +221,7 @@ Ltac lrw := cbn [run step defaulted hd_error tl LrComplete.mk fst snd t_kind ter
                  W_id W_pl W_int0 W_fl0 W_int W_fl S_kq S_tv S_kw S_tv2 S_pp S_co wk wterm Nat.eqb lk].
 Ltac evw := cbn [eval bind first_line leaf_text LrComplete.mk t_kind t_lexeme t_line fst snd lk wk].
 Ltac in_cases Hi := destruct Hi as [->|[->|[->|[->|[->| ->]]]]].
-Ltac wf_cases H := destruct H as [[-> [H|H]]|[[[->| ->] [H|H]]|[[[->| ->] H]|[[[->| ->] [H|H]]|[[[->| ->] H]|[[-> [H|H]]|[Hi [H|[H|[H|H]]]]]]]]]]; [| | | | | | | | | | | | | | | | in_cases Hi | in_cases Hi | in_cases Hi | in_cases Hi].
+Ltac wf_cases H := destruct H as [[-> [H|H]]|[[[->| ->] [H|H]]|[[[->| ->] H]|[[[->| ->] [H|H]]|[[[->|[->|[->| ->]]] H]|[[-> [H|[H|H]]]|[Hi [H|[H|[H|H]]]]]]]]]]; [| | | | | | | | | | | | | | | | | | | in_cases Hi | in_cases Hi | in_cases Hi | in_cases Hi].
 Lemma wfollow_la s la : wfollow s la -> la4 la.
 Proof. unfold wfollow, la4. tauto. Qed.
 Lemma wfollow_inner s w la : wfollow s la -> inner (sh s (wterm w)).
@@ -257,6 +264,67 @@ Proof. intros W s i T0 st la rest H. cbn [Surface.xval_ok] in W. apply andb_true
   - evw. rewrite He. reflexivity.
   - reflexivity.
 Qed.
+(* text : text : ... -- the colons are kept; left to right, the accumulated text sits in goto(b, permissive_plain_string), where b
+   is the state in which the value started: an argument's value (S_val) or the value of a pair (S_tv / S_tv2) *)
+Definition isbr (t : tree) : Prop := match t with Br _ _ => True | Leaf _ => False end.
+Definition cstart (b : nat) : Prop := b = S_val \/ b = S_tv \/ b = S_tv2.
+Definition ctfollow (b : nat) (la : token) : Prop :=
+  (b = S_val /\ actx la) \/ ((b = S_tv \/ b = S_tv2) /\ (t_kind la = KCOMMA \/ t_kind la = KRBRACK)).
+Ltac cf_cases H := destruct H as [[-> [H|H]]|[[->| ->] [H|H]]].
+Lemma colon_tail : forall ps, forallb words_valid ps = true -> forall b acc Tacc i T0 st la rest, ctfollow b la ->
+  eval fs Tacc = SOk (SText acc) -> isbr Tacc ->
+  exists n T, (n <= 6 * length (flat_map (fun q => colon :: map wk q) ps))%nat /\
+    reaches ((gt b N_permissive_plain_string, Tacc) :: (b, T0) :: st) (deco i (flat_map (fun q => colon :: map wk q) ps) ++ la :: rest)
+            ((gt b N_permissive_plain_string, T) :: (b, T0) :: st) (la :: rest) n /\
+    eval fs T = SOk (SText (acc ++ flat_map (fun q => 58%N :: wtext q) ps)) /\ isbr T.
+Proof. induction ps as [|q ps IH]; intros W b acc Tacc i T0 st la rest Hla He Hb.
+  - exists 0%nat, Tacc. cbn [flat_map length LrComplete.deco app]. rewrite app_nil_r. split; [lia|]. split; [intros f; reflexivity | split; [exact He | exact Hb]].
+  - cbn [forallb] in W. apply andb_true_iff in W as [W1 W2]. unfold Surface.words_valid in W1. apply andb_true_iff in W1 as [V1 V2].
+    cbn [flat_map]. rewrite deco_app. cbn [LrComplete.deco length]. rewrite <- app_assoc. cbn [app]. rewrite map_length.
+    set (c := mk i colon). set (tl_ := flat_map (fun q0 => colon :: map wk q0) ps).
+    (* what follows this part: a colon (more parts) or the end of the value *)
+    assert (Hnext : exists la' rest', deco (S (length q) + i) tl_ ++ la :: rest = la' :: rest' /\
+                      (t_kind la' = KCOLON \/ t_kind la' = KCOMMA \/ t_kind la' = KRPAREN \/ t_kind la' = KRBRACK)).
+    { unfold tl_. destruct ps as [|q2 ps']; cbn [flat_map app LrComplete.deco];
+      [exists la, rest; split; [reflexivity | unfold ctfollow, actx in Hla; tauto] | eexists; eexists; split; [reflexivity | left; reflexivity]]. }
+    destruct Hnext as (la' & rest' & En & Hk). rewrite En.
+    assert (Hw : wfollow S_co la') by (unfold wfollow; destruct Hk as [K|[K|[K|K]]]; tauto).
+    destruct (words_ok q V1 V2 S_co (S i) (Leaf c) ((gt b N_permissive_plain_string, Tacc) :: (b, T0) :: st) la' rest' Hw) as (n & Tq & Hn & Hr & Heq).
+    set (Tn := Br F_p_permissive_plain_stirng_with_colon [Tacc; Leaf c; Br F_p_permissive_plain_string [Tq]]).
+    assert (Hen : eval fs Tn = SOk (SText (acc ++ 58%N :: wtext q))) by (unfold Tn; evw; rewrite He, Heq; reflexivity).
+    destruct (IH W2 b (acc ++ 58%N :: wtext q) Tn (S (length q) + i)%nat T0 st la rest Hla Hen I) as (n2 & T2 & Hn2 & Hr2 & He2 & Hb2).
+    fold tl_ in Hr2. rewrite En in Hr2.
+    exists (1 + n + 2 + n2)%nat, T2. split; [|split; [|split]]; [| | |exact Hb2].
+    + cbn [length]. rewrite app_length, map_length. fold tl_ in Hn2. destruct q; [discriminate|]. cbn [length] in *. lia.
+    + eapply reaches_trans; [eapply reaches_trans; [eapply reaches_trans; [|exact Hr]|] | exact Hr2].
+      * intros f. unfold c, colon. cf_cases Hla; repeat (progress lrw); reflexivity.
+      * intros f. cf_cases Hla; destruct Hk as [K|[K|[K|K]]]; repeat (progress (lrw; rewrite ?K)); reflexivity.
+    + rewrite He2. rewrite <- app_assoc. reflexivity.
+Qed.
+(* unquoted text with colons started in b: first part, then the tail *)
+Lemma colon_text_ok p ps : colon_ok p ps = true -> forall b i T0 st la rest, ctfollow b la ->
+  exists n T, (n + 2 <= 6 * length (tk_colon p ps))%nat /\
+    reaches ((b, T0) :: st) (deco i (tk_colon p ps) ++ la :: rest) ((gt b N_permissive_plain_string, T) :: (b, T0) :: st) (la :: rest) n /\
+    eval fs T = SOk (SText (ctext_of p ps)) /\ isbr T.
+Proof. intros W b i T0 st la rest H. unfold Surface.colon_ok in W. apply andb_true_iff in W as [W W3]. apply andb_true_iff in W as [W1 W2].
+  unfold Surface.words_valid in W1. apply andb_true_iff in W1 as [V1 V2].
+  destruct ps as [|q ps']; [discriminate|]. clear W3. set (ps := q :: ps') in *. unfold tk_colon.
+  rewrite deco_app. rewrite <- app_assoc. rewrite map_length.
+  set (tl_ := flat_map (fun q0 => colon :: map wk q0) ps).
+  assert (En : exists la' rest', deco (length p + i) tl_ ++ la :: rest = la' :: rest' /\ t_kind la' = KCOLON).
+  { unfold tl_, ps. cbn [flat_map app LrComplete.deco]. eexists; eexists; split; reflexivity. }
+  destruct En as (la' & rest' & En & Hk). rewrite En.
+  assert (Hw : wfollow b la') by (unfold wfollow; unfold ctfollow in H; tauto).
+  destruct (words_ok p V1 V2 b i T0 st la' rest' Hw) as (n & Tp & Hn & Hr & Hep).
+  set (T1 := Br F_p_permissive_plain_string [Tp]).
+  assert (He1 : eval fs T1 = SOk (SText (wtext p))) by (unfold T1; evw; rewrite Hep; reflexivity).
+  destruct (colon_tail ps W2 b (wtext p) T1 (length p + i)%nat T0 st la rest H He1 I) as (n2 & T2 & Hn2 & Hr2 & He2 & Hb2).
+  fold tl_ in Hr2. rewrite En in Hr2.
+  exists (n + 1 + n2)%nat, T2. split; [|split; [|split]]; [| |exact He2|exact Hb2].
+  - rewrite app_length, map_length. fold tl_ in Hn2. destruct p; [discriminate|]. unfold tl_, ps in *. cbn [length flat_map app] in *. lia.
+  - eapply reaches_trans; [eapply reaches_trans; [exact Hr|]| exact Hr2].
+    intros f. cf_cases H; repeat (progress (lrw; rewrite ?Hk)); reflexivity.
+Qed.
 (* ---- dictionaries: key: value pairs; a key is a quoted string or unquoted text, a value one token or unquoted text ---- *)
 (* the value of a pair, started in S_tv / S_tv2, followed by `,` or `]` *)
 Definition pvsem (v : xpv) : sem :=
@@ -264,12 +332,13 @@ Definition pvsem (v : xpv) : sem :=
   | PVLeaf (XS lx) => SText (match sden lx with Some t => t | None => [] end)
   | PVLeaf (XI lx) => SNum (PInt (int_of_lexeme lx)) | PVLeaf (XF lx) => SNum (PFloat lx) | PVLeaf (XW lx) => SText lx
   | PVWords ws => SText (wtext ws)
+  | PVColon p ps => SText (ctext_of p ps)
   end.
 Lemma xpv_ok v : pv_ok v = true -> forall b i T0 st la rest, b = S_tv \/ b = S_tv2 -> t_kind la = KCOMMA \/ t_kind la = KRBRACK ->
   exists n T, (n <= 6 * length (tk_pv v))%nat /\
     reaches ((b, T0) :: st) (deco i (tk_pv v) ++ la :: rest) ((gt b N_tuple_value, T) :: (b, T0) :: st) (la :: rest) n /\
     eval fs T = SOk (pvsem v).
-Proof. intros W b i T0 st la rest Hb H. destruct v as [a|ws]; cbn [pv_ok tk_pv] in *.
+Proof. intros W b i T0 st la rest Hb H. destruct v as [a|ws|p ps]; cbn [Surface.pv_ok tk_pv] in *.
   - destruct a as [lx|lx|lx|lx]; cbn [leaf_ok] in W; cbn [LrComplete.deco app lk].
     + unfold sden in W. destruct (string_value lx) as [sv| |] eqn:EV; try discriminate. exists 2%nat. eexists. split; [cbn; lia|]. split.
       { intros f. destruct Hb as [-> | ->]; destruct H as [H|H]; repeat (progress (lrw; rewrite ?H)); reflexivity. }
@@ -290,10 +359,15 @@ Proof. intros W b i T0 st la rest Hb H. destruct v as [a|ws]; cbn [pv_ok tk_pv] 
     + rewrite map_length. destruct ws; [discriminate|]. cbn [length] in *. lia.
     + eapply reaches_trans; [exact Hr|]. intros f. destruct Hb as [-> | ->]; destruct H as [H|H]; repeat (progress (lrw; rewrite ?H)); reflexivity.
     + evw. rewrite He. reflexivity.
+  - assert (Hc : ctfollow b la) by (unfold ctfollow; tauto).
+    destruct (colon_text_ok p ps W b i T0 st la rest Hc) as (n & T & Hn & Hr & He & Hbr).
+    exists (n + 1)%nat, (Br F_p_tuple_value [T]). split; [lia|]. split.
+    + eapply reaches_trans; [exact Hr|]. intros f. destruct Hb as [-> | ->]; destruct H as [H|H]; repeat (progress (lrw; rewrite ?H)); reflexivity.
+    + evw. destruct T as [|f2 l2]; [destruct Hbr|]. rewrite He. reflexivity.
 Qed.
 Lemma pvsem_pair v ks l : exists e, (match pvsem v with SText x => SOk (SPair ks (PE (PStr x) l)) | SNum n => SOk (SPair ks (PE n l)) | _ => SUnsupported end) = SOk (SPair ks e)
   /\ erase_e e = PE (pvden v) 0%N.
-Proof. destruct v as [[lx|lx|lx|lx]|ws]; cbn [pvsem pvden lden]; eexists; split; reflexivity. Qed.
+Proof. destruct v as [[lx|lx|lx|lx]|ws|p ps]; cbn [pvsem pvden lden]; eexists; split; reflexivity. Qed.
 Lemma eval_pair_nonleaf f kids c T : eval fs (Br F_p_tuple_pair [Br f kids; c; T]) =
   bind (eval fs (Br f kids)) (fun sk => bind (eval fs T) (fun sv => match sk, sv with
     | SText ks, SText x => SOk (SPair ks (PE (PStr x) (first_line (Br f kids))))
@@ -395,41 +469,10 @@ Proof. induction v as [a|l tr IH|ws|p ps tr] using xval_ind'; [apply xleaf_ok | 
 Definition xarg_ok (a : xarg) : bool :=
   match a with
   | XAVal v => xval_ok v | XADict p ps _ => forallb pair_ok (p :: ps)
-  | XAColon p ps => words_valid p && forallb words_valid ps && match ps with [] => false | _ => true end
+  | XAColon p ps => colon_ok p ps
   end.
-Definition ctext_of (p : list xword) (ps : list (list xword)) : text := wtext p ++ flat_map (fun q => 58%N :: wtext q) ps.
 Definition xaexp (a : xarg) : pval :=
   match a with XAVal v => xden v | XADict p ps _ => PDict (xdexp (p :: ps)) | XAColon p ps => PStr (ctext_of p ps) end.
-(* text : text : ... -- the colons are kept; left to right, the accumulated text sits in state S_pp *)
-Definition isbr (t : tree) : Prop := match t with Br _ _ => True | Leaf _ => False end.
-Lemma colon_tail : forall ps, forallb words_valid ps = true -> forall acc Tacc i T0 st la rest, actx la ->
-  eval fs Tacc = SOk (SText acc) -> isbr Tacc ->
-  exists n T, (n <= 6 * length (flat_map (fun q => colon :: map wk q) ps))%nat /\
-    reaches ((S_pp, Tacc) :: (S_val, T0) :: st) (deco i (flat_map (fun q => colon :: map wk q) ps) ++ la :: rest)
-            ((S_pp, T) :: (S_val, T0) :: st) (la :: rest) n /\
-    eval fs T = SOk (SText (acc ++ flat_map (fun q => 58%N :: wtext q) ps)) /\ isbr T.
-Proof. induction ps as [|q ps IH]; intros W acc Tacc i T0 st la rest Hla He Hb.
-  - exists 0%nat, Tacc. cbn [flat_map length LrComplete.deco app]. rewrite app_nil_r. split; [lia|]. split; [intros f; reflexivity | split; [exact He | exact Hb]].
-  - cbn [forallb] in W. apply andb_true_iff in W as [W1 W2]. unfold words_valid in W1. apply andb_true_iff in W1 as [V1 V2].
-    cbn [flat_map]. rewrite deco_app. cbn [LrComplete.deco length]. rewrite <- app_assoc. cbn [app]. rewrite map_length.
-    set (c := mk i colon). set (tl_ := flat_map (fun q0 => colon :: map wk q0) ps).
-    (* what follows this part: a colon (more parts) or the end of the value *)
-    assert (Hnext : exists la' rest', deco (S (length q) + i) tl_ ++ la :: rest = la' :: rest' /\ (t_kind la' = KCOLON \/ t_kind la' = KCOMMA \/ t_kind la' = KRPAREN)).
-    { unfold tl_. destruct ps as [|q2 ps']; cbn [flat_map app LrComplete.deco]; [exists la, rest; split; [reflexivity | destruct Hla; tauto] | eexists; eexists; split; [reflexivity | left; reflexivity]]. }
-    destruct Hnext as (la' & rest' & En & Hk). rewrite En.
-    assert (Hw : wfollow S_co la') by (unfold wfollow; destruct Hk as [K|[K|K]]; tauto).
-    destruct (words_ok q V1 V2 S_co (S i) (Leaf c) ((S_pp, Tacc) :: (S_val, T0) :: st) la' rest' Hw) as (n & Tq & Hn & Hr & Heq).
-    set (Tn := Br F_p_permissive_plain_stirng_with_colon [Tacc; Leaf c; Br F_p_permissive_plain_string [Tq]]).
-    assert (Hen : eval fs Tn = SOk (SText (acc ++ 58%N :: wtext q))) by (unfold Tn; evw; rewrite He, Heq; reflexivity).
-    destruct (IH W2 (acc ++ 58%N :: wtext q) Tn (S (length q) + i)%nat T0 st la rest Hla Hen I) as (n2 & T2 & Hn2 & Hr2 & He2 & Hb2).
-    fold tl_ in Hr2. rewrite En in Hr2.
-    exists (1 + n + 2 + n2)%nat, T2. split; [|split; [|split]]; [| | |exact Hb2].
-    + cbn [length]. rewrite app_length, map_length. fold tl_ in Hn2. destruct q; [discriminate|]. cbn [length] in *. lia.
-    + eapply reaches_trans; [eapply reaches_trans; [eapply reaches_trans; [|exact Hr]|] | exact Hr2].
-      * intros f. unfold c, colon. repeat (progress lrw). reflexivity.
-      * intros f. destruct Hk as [K|[K|K]]; repeat (progress (lrw; rewrite ?K)); reflexivity.
-    + rewrite He2. rewrite <- app_assoc. reflexivity.
-Qed.
 Definition xarg_matches (x : text * xarg) (a : parg) : Prop := pa_name a = fst x /\ erase_e (pa_value a) = PE (xaexp (snd x)) 0%N.
 Lemma xargval_ok (a : xarg) : xarg_ok a = true -> forall i T0 st la rest, actx la ->
   exists n T e, (n + 4 <= 10 * length (tl (tl (tkx_arg (nil, a)))))%nat /\
@@ -451,26 +494,11 @@ Proof. intros W i T0 st la rest H. destruct a as [v|p ps tr|p ps]; cbn [tkx_arg 
       * intros f. unfold rb, rbt. cbn [gp Nat.eqb]. destruct H as [H|H]; repeat (progress (lr; rewrite ?H)); reflexivity.
     + ev. rewrite He. reflexivity.
     + cbn [erase_e erase_v xaexp]. fold er. rewrite Hp. reflexivity.
-  - apply andb_true_iff in W as [W W3]. apply andb_true_iff in W as [W1 W2]. unfold words_valid in W1. apply andb_true_iff in W1 as [V1 V2].
-    destruct ps as [|q ps']; [discriminate|]. clear W3.
-    set (ps := q :: ps') in *.
-    rewrite deco_app. rewrite <- app_assoc. rewrite map_length.
-    set (tl_ := flat_map (fun q0 => colon :: map wk q0) ps).
-    assert (En : exists la' rest', deco (length p + i) tl_ ++ la :: rest = la' :: rest' /\ t_kind la' = KCOLON).
-    { unfold tl_, ps. cbn [flat_map app LrComplete.deco]. eexists; eexists; split; reflexivity. }
-    destruct En as (la' & rest' & En & Hk). rewrite En.
-    assert (Hw : wfollow S_val la') by (unfold wfollow; tauto).
-    destruct (words_ok p V1 V2 S_val i T0 st la' rest' Hw) as (n & Tp & Hn & Hr & Hep).
-    set (T1 := Br F_p_permissive_plain_string [Tp]).
-    assert (He1 : eval fs T1 = SOk (SText (wtext p))) by (unfold T1; evw; rewrite Hep; reflexivity).
-    destruct (colon_tail ps W2 (wtext p) T1 (length p + i)%nat T0 st la rest H He1 I) as (n2 & T2 & Hn2 & Hr2 & He2 & Hb2).
-    fold tl_ in Hr2. rewrite En in Hr2.
-    exists (n + 1 + n2 + 1)%nat, (Br F_p_expression [T2]), (PE (PStr (ctext_of p ps)) (first_line T2)).
+  - destruct (colon_text_ok p ps W S_val i T0 st la rest (or_introl (conj eq_refl H))) as (n & T2 & Hn & Hr & He2 & Hb2).
+    exists (n + 1)%nat, (Br F_p_expression [T2]), (PE (PStr (ctext_of p ps)) (first_line T2)).
     split; [|split; [|split]].
-    + rewrite app_length, map_length. fold tl_ in Hn2. destruct p; [discriminate|]. cbn [length] in *. lia.
-    + eapply reaches_trans; [eapply reaches_trans; [eapply reaches_trans; [exact Hr|]| exact Hr2]|].
-      * intros f. repeat (progress (lrw; rewrite ?Hk)); reflexivity.
-      * intros f. destruct H as [A|A]; repeat (progress (lrw; rewrite ?A)); reflexivity.
+    + fold (tk_colon p ps). lia.
+    + eapply reaches_trans; [exact Hr|]. intros f. destruct H as [A|A]; repeat (progress (lrw; rewrite ?A)); reflexivity.
     + evw. destruct T2 as [|f2 l2]; [destruct Hb2|]. rewrite He2. reflexivity.
     + reflexivity.
 Qed.
